@@ -36,6 +36,13 @@ impl Default for Link {
     }
 }
 
+#[cfg(feature = "verif")]
+impl Link {
+    pub fn verif_data_pos(&self) -> Address {
+        self.data_pos
+    }
+}
+
 impl Link {
     pub fn append(&mut self, mut link: Link) -> Result<()> {
         if self.direct_set && !link.data.is_empty() {
